@@ -56,6 +56,9 @@ let dispatch (t : Stdlib.String.t array) : Stdlib.String.t =
       | Err -> "err parse"
       | Panic s -> "panic " ^ string_of_n s)
   | "seq" -> Seqops.seq !profile_ref t
+  | "route" -> Streamops.route !profile_ref t
+  | "indices" -> Streamops.indices t
+  | "seidrop" -> Streamops.seidrop t
   | "rpufile" -> (
       let cs = int_of_string t.(1) in
       let cs = if cs = 0 then 100000 else cs in
